@@ -65,10 +65,44 @@ fn make_kfold(how: i64, k: usize, shuffle: bool) -> KFold {
 }
 
 fn kfold_event(run: i64, n: usize, k: usize, shuffle: bool) -> Value {
+    kfold_event_via(run, n, k, shuffle, 0)
+}
+
+/// `via` = how the iterator returned by `split` is consumed:
+/// 0 collect; 1 take(d) of one iterator + skip(d) of a fresh one; 2 nth(j) of a fresh iterator
+/// for every j; 3 d calls of next() then collect() of the SAME iterator; 4 step_by(2) of one
+/// iterator + skip(1).step_by(2) of a fresh one.  1, 2 and 4 need a deterministic split
+/// (shuffle off); the pairs obtained must in every case be the k folds.
+fn kfold_event_via(run: i64, n: usize, k: usize, shuffle: bool, via: i64) -> Value {
     let x = ident_x(n);
     let r = guard(|| {
         let kf = make_kfold(run, k, shuffle);
-        kf.split(&x).collect::<Vec<(Vec<usize>, Vec<usize>)>>()
+        let d = (k / 2).max(1);
+        match via {
+            1 => {
+                let mut v: Vec<(Vec<usize>, Vec<usize>)> = kf.split(&x).take(d).collect();
+                v.extend(kf.split(&x).skip(d));
+                v
+            }
+            2 => (0..k).filter_map(|j| kf.split(&x).nth(j)).collect(),
+            3 => {
+                let mut it = kf.split(&x);
+                let mut v = Vec::new();
+                for _ in 0..d {
+                    if let Some(p) = it.next() {
+                        v.push(p);
+                    }
+                }
+                v.extend(it);
+                v
+            }
+            4 => {
+                let mut v: Vec<(Vec<usize>, Vec<usize>)> = kf.split(&x).step_by(2).collect();
+                v.extend(kf.split(&x).skip(1).step_by(2));
+                v
+            }
+            _ => kf.split(&x).collect(),
+        }
     });
     match r {
         Ok(s) => {
@@ -76,12 +110,69 @@ fn kfold_event(run: i64, n: usize, k: usize, shuffle: bool) -> Value {
                 .iter()
                 .map(|(tr, te)| json!({"train": tr, "test": te}))
                 .collect();
-            json!({"run": run, "ev": "KFold", "n": n, "k": k, "shuffle": shuffle, "how": run.rem_euclid(3), "status": "ok", "splits": splits})
+            json!({"run": run, "ev": "KFold", "n": n, "k": k, "shuffle": shuffle, "how": run.rem_euclid(3), "via": via, "status": "ok", "splits": splits})
         }
         Err(_) => {
-            json!({"run": run, "ev": "KFold", "n": n, "k": k, "shuffle": shuffle, "how": run.rem_euclid(3), "status": "panic"})
+            json!({"run": run, "ev": "KFold", "n": n, "k": k, "shuffle": shuffle, "how": run.rem_euclid(3), "via": via, "status": "panic"})
         }
     }
+}
+
+/// A user-supplied splitter: hands out exactly the (train, test) pairs it was given.
+struct Declared {
+    pairs: Vec<(Vec<usize>, Vec<usize>)>,
+}
+
+impl BaseKFold for Declared {
+    type Output = std::vec::IntoIter<(Vec<usize>, Vec<usize>)>;
+    fn split<T: smartcore::math::num::RealNumber, M: smartcore::linalg::Matrix<T>>(&self, _x: &M) -> Self::Output {
+        self.pairs.clone().into_iter()
+    }
+    fn n_splits(&self) -> usize {
+        self.pairs.len()
+    }
+}
+
+/// splitters whose training set is NOT the complement of the test set
+fn declared_pairs(n: usize, style: usize) -> Vec<(Vec<usize>, Vec<usize>)> {
+    let mut v = Vec::new();
+    match style {
+        0 => {
+            // forward chaining: train on the past, test on the next block
+            let b = (n / 4).max(1);
+            let mut a = b;
+            while a + b <= n {
+                v.push(((0..a).collect(), (a..a + b).collect()));
+                a += b;
+            }
+        }
+        1 => {
+            // purged k-fold: a gap of one row on each side of the test block is left out
+            let b = (n / 3).max(1);
+            let mut a = 0;
+            while a + b <= n {
+                let lo = a.saturating_sub(1);
+                let hi = (a + b + 1).min(n);
+                let tr: Vec<usize> = (0..n).filter(|i| *i < lo || *i >= hi).collect();
+                if !tr.is_empty() {
+                    v.push((tr, (a..a + b).collect()));
+                }
+                a += b;
+            }
+        }
+        _ => {
+            // sub-sampled training sets in a scrambled order, scattered test rows
+            let k = 3.min(n / 2).max(1);
+            for j in 0..k {
+                let te: Vec<usize> = (0..n).filter(|i| i % k == j).rev().collect();
+                let tr: Vec<usize> = (0..n).filter(|i| i % k != j && i % 2 == 0).rev().collect();
+                if !tr.is_empty() && !te.is_empty() {
+                    v.push((tr, te));
+                }
+            }
+        }
+    }
+    v
 }
 
 /// exact decomposition of an f32: v = m * 2^e with m an odd integer (or 0)
@@ -129,6 +220,18 @@ fn tts_event(run: i64, n: usize, ny: usize, ts: f32, shuffle: bool) -> Value {
 }
 
 fn cv_events(run: i64, n: usize, k: usize, shuffle: bool, predict_kind: bool, out: &mut Out) {
+    cv_events_with(run, n, k, shuffle, predict_kind, None, out)
+}
+
+fn cv_events_with(
+    run: i64,
+    n: usize,
+    k: usize,
+    shuffle: bool,
+    predict_kind: bool,
+    custom: Option<Vec<(Vec<usize>, Vec<usize>)>>,
+    out: &mut Out,
+) {
     let mut v = Vec::with_capacity(n);
     for i in 0..n {
         v.push(i as f64);
@@ -138,7 +241,12 @@ fn cv_events(run: i64, n: usize, k: usize, shuffle: bool, predict_kind: bool, ou
     let log: Log = Rc::new(RefCell::new(Vec::new()));
     let fitno = Rc::new(RefCell::new(0i64));
     let kind = if predict_kind { "predict" } else { "validate" };
-    out.emit(json!({"run": run, "ev": "CVStart", "kind": kind, "n": n, "k": k, "shuffle": shuffle, "how": run.rem_euclid(3)}));
+    let decl: Vec<Value> = custom
+        .as_ref()
+        .map(|p| p.iter().map(|(tr, te)| json!({"train": tr, "test": te})).collect())
+        .unwrap_or_default();
+    out.emit(json!({"run": run, "ev": "CVStart", "kind": kind, "n": n, "k": k, "shuffle": shuffle,
+                    "how": run.rem_euclid(3), "custom": custom.is_some(), "splits": decl}));
     let fit = {
         let log = log.clone();
         let fitno = fitno.clone();
@@ -155,9 +263,11 @@ fn cv_events(run: i64, n: usize, k: usize, shuffle: bool, predict_kind: bool, ou
             })
         }
     };
-    let cv = make_kfold(run, k, shuffle);
     let (status, done) = if predict_kind {
-        let r = guard(|| cross_val_predict(fit, &x, &y, (), cv));
+        let r = guard(|| match custom.clone() {
+            Some(pairs) => cross_val_predict(fit, &x, &y, (), Declared { pairs }),
+            None => cross_val_predict(fit, &x, &y, (), make_kfold(run, k, shuffle)),
+        });
         match r {
             Ok(Ok(yhat)) => ("ok", json!({"yhat": iv(&yhat)})),
             Ok(Err(_)) => ("err", json!({})),
@@ -177,7 +287,10 @@ fn cv_events(run: i64, n: usize, k: usize, shuffle: bool, predict_kind: bool, ou
                 s as f64
             }
         };
-        let r = guard(|| cross_validate(fit, &x, &y, (), cv, score));
+        let r = guard(|| match custom.clone() {
+            Some(pairs) => cross_validate(fit, &x, &y, (), Declared { pairs }, score),
+            None => cross_validate(fit, &x, &y, (), make_kfold(run, k, shuffle), score),
+        });
         match r {
             Ok(Ok(res)) => (
                 "ok",
@@ -242,6 +355,17 @@ fn main() {
                     out.emit(kfold_event(run, n, k, sh));
                 }
             }
+            // other ways of consuming the iterator returned by split()
+            for n in 2..=18usize {
+                for k in 2..=n {
+                    for via in 1..=4i64 {
+                        run += 1;
+                        out.emit(kfold_event_via(run, n, k, false, via));
+                    }
+                    run += 1;
+                    out.emit(kfold_event_via(run, n, k, true, 3));
+                }
+            }
             // the documented rejection: fewer than two splits
             for n in 2..=4 {
                 for k in 0..=1 {
@@ -286,6 +410,19 @@ fn main() {
                 for &pk in [false, true].iter() {
                     run += 1;
                     cv_events(run, n, k, false, pk, &mut out);
+                }
+            }
+            // user-supplied splitters whose training sets are not complements of the test sets
+            for n in 6..=24usize {
+                for style in 0..3usize {
+                    let pairs = declared_pairs(n, style);
+                    if pairs.is_empty() {
+                        continue;
+                    }
+                    for &pk in [false, true].iter() {
+                        run += 1;
+                        cv_events_with(run, n, pairs.len(), false, pk, Some(pairs.clone()), &mut out);
+                    }
                 }
             }
             let reps = if th { 6 } else { 1 };
